@@ -3900,10 +3900,12 @@ type enterFuncBody struct {
 	funcType    funcType
 	extensible  bool
 	adjustStack bool
+	// the scope is subject to dynamic lookups (direct eval): the compiler counts it as a stash level even if it is empty
+	dynLookup bool
 }
 
 func (e *enterFuncBody) exec(vm *vm) {
-	if e.stashSize > 0 || e.extensible {
+	if e.stashSize > 0 || e.extensible || e.dynLookup {
 		vm.newStash()
 		stash := vm.stash
 		stash.funcType = e.funcType
